@@ -303,6 +303,8 @@ func runC14Bubble(t *testing.T, tape *sim.Tape, tier string, o *Outcome, schedp 
 								// only immutable attributes: per-connection mutable state belongs to its own goroutine
 								_ = got.Timestamp()
 								_ = got.UUID()
+								_ = got.IsTLSConnection()
+								_, _ = got.TLSConnectionState()
 							}
 						}
 					}()
